@@ -153,3 +153,28 @@ def clip_save_reopen():
                     polygons=[p.wkt for p in back.ems.polygons], instants=[str(v) for v in back['time'].values])
     finally:
         shutil.rmtree(work, ignore_errors=True)
+
+
+def stations_in_two_models():
+    """C05: one list of stations extracted from two models over the same region, one after the other."""
+    import pandas
+    import shapely
+    from emsarray.operations import point_extraction
+    out = {}
+    stations = [(100.6, 10.4), (103.2, 11.6), (101.9, 12.3), (250.0, 80.0)]
+    for name, (ny, nx) in (('coarse', (3, 4)), ('fine', (6, 12)), ('coarse-again', (3, 4))):
+        lat = numpy.linspace(10.0, 12.5, ny)
+        lon = numpy.linspace(100.0, 104.5, nx)
+        ds = builders.cf1d(ny, nx, lat=lat, lon=lon, data_vars={'cell': (('y', 'x'), numpy.arange(ny * nx, dtype=float).reshape(ny, nx) + (1000 if name == 'fine' else 0))})
+        pts = [shapely.Point(x, y) for x, y in stations]
+        sel = ds.ems.select_points(pts, missing_points='drop')
+        df = pandas.DataFrame({'lon': [s[0] for s in stations], 'lat': [s[1] for s in stations]})
+        ext = point_extraction.extract_dataframe(ds, df, ('lon', 'lat'), missing_points='fill')
+        # reference: nearest axis values (cells are midpoint rectangles)
+        want = []
+        for x, y in stations[:3]:
+            j, i = int(numpy.abs(lat - y).argmin()), int(numpy.abs(lon - x).argmin())
+            want.append(float(j * nx + i + (1000 if name == 'fine' else 0)))
+        out[name] = dict(selected=[float(v) for v in sel['cell'].values], labels=[int(v) for v in sel['point'].values],
+                         extracted=[None if v != v else float(v) for v in ext['cell'].values], want=want)
+    return out
